@@ -1560,6 +1560,16 @@ class H2Connection:
         # If necessary, check we can open the stream. Also validate that the
         # stream ID is valid.
         if frame.stream_id not in self.streams:
+            if (self.config.client_side and
+                    not self._stream_id_is_outbound(frame.stream_id) and
+                    frame.stream_id > self.highest_inbound_stream_id):
+                # Only PUSH_PROMISE can open a server-initiated stream: a
+                # HEADERS frame on an idle one is a connection error.
+                raise ProtocolError(
+                    "Received HEADERS on idle server-initiated stream %d" %
+                    frame.stream_id
+                )
+
             max_open_streams = self.local_settings.max_concurrent_streams
             if (self.open_inbound_streams + 1) > max_open_streams:
                 raise TooManyStreamsError(
